@@ -6,7 +6,7 @@
    Spec:   Spec/MsgpackSpec.v (independent decoder), Spec/SerializerSpec.v (event_tree, unescape_ref; and the
            append-style encoder [encode_spec] that links the two and is not trusted). *)
 From SV Require Import Model.Common Model.Msgpack Model.Unescape Model.Serializer
-     Spec.MsgpackSpec Spec.SerializerSpec Proofs.UnescapeProofs Proofs.SerializerProofs.
+     Spec.MsgpackSpec Spec.SerializerSpec Proofs.UnescapeProofs Proofs.SerializerProofs Proofs.SerializerOverflow.
 Open Scope N_scope.
 
 (* The headline.  For every schema (any number of fields below 65535, on either side of the fixmap/map16
@@ -43,6 +43,23 @@ Theorem C10_encode_buf_spec :
   serialize_record ser rec = Ok (encode_spec schema cfg rec).
 Proof. exact encode_buf_spec_lemma. Qed.
 Print Assumptions C10_encode_buf_spec.
+
+(* 1'. For EVERY buffer size (no "it fits" hypothesis): SerializeRecord is total - it returns a stream or panics, the
+   unescape loop never runs out of fuel -, it panics only when the event is at least as long as the buffer, and a
+   stream it returns is either empty (position == len(buffer): the record is dropped) or the complete event.  A
+   truncated or otherwise malformed event is never emitted. *)
+Theorem C10_never_emits_garbage :
+  forall schema cfg rec B ser,
+  verify_config schema cfg = true ->
+  (length schema <= length (r_fields rec))%nat ->
+  new_serializer schema cfg B = Ok ser ->
+  match serialize_record ser rec with
+  | Ok stream => stream = [] \/ stream = encode_spec schema cfg rec
+  | Panic _ => (B <= length (encode_spec schema cfg rec))%nat
+  | Err _ => False
+  end.
+Proof. exact never_garbage_lemma. Qed.
+Print Assumptions C10_never_emits_garbage.
 
 (* 2. The append-style encoding decodes to the expected event, for all schemas, configurations and records whose
    strings MessagePack can express (shorter than 2^32 bytes; map counts fit 16 bits). *)
